@@ -34,7 +34,8 @@ impl Prop for C08 {
         "C08"
     }
     fn strategy(&self, tier: Tier) -> BoxedStrategy<DripCase> {
-        // one case in twelve is four times as long: the one-shot twin then sees 50 000+ samples
+        // one case in twelve is four times as long (and one in 240 sixty times: up to 1.2 million
+        // samples): the one-shot twin then sees 50 000+ samples
         // in a single work() call (per-call caps, index widths), the drip twin never more than
         // a few pages
         (
@@ -44,12 +45,18 @@ impl Prop for C08 {
                 tier.pick(60, 150) as usize,
                 prop_oneof![3 => Just(0u16), 1 => 16u16..200].boxed(),
             ),
-            0u8..12,
+            0u16..240,
         )
             .prop_map(|(mut c, long)| {
-                if long == 0 {
+                if long % 12 == 0 {
                     for g in c.gens.iter_mut() {
                         g.len = g.len.saturating_mul(4);
+                    }
+                }
+                if long == 7 {
+                    // one case in 240: a window of up to a million samples in one call
+                    for g in c.gens.iter_mut() {
+                        g.len = g.len.saturating_mul(60).min(1_200_000);
                     }
                 }
                 c
